@@ -2150,6 +2150,13 @@ class _HelperInliner:
                         cnode._no_inline = True
                         continue
                     return pre + body, None, True
+                if whole and isinstance(st, ast.Return):
+                    # `return helper(..)`: the helper's body takes the place of the statement, its returns stay returns
+                    body = self._instantiate(helper, cnode, '__return__', tag)
+                    if body is None:
+                        cnode._no_inline = True
+                        continue
+                    return pre + body, None, True
                 if whole and isinstance(st, ast.Expr):
                     body = self._instantiate(helper, cnode, None, tag)
                     if body is None:
@@ -2302,7 +2309,7 @@ class _HelperInliner:
                 return None
         mapping = {v: f"{v}{tag}" for v in locals_}
         rets = [n for n in ast.walk(ast.Module(body=body, type_ignores=[])) if isinstance(n, ast.Return)]
-        if isinstance(target, str) and len(rets) == 1 and body and rets[0] is body[-1] and isinstance(rets[0].value, ast.Name) \
+        if isinstance(target, str) and target != '__return__' and len(rets) == 1 and body and rets[0] is body[-1] and isinstance(rets[0].value, ast.Name) \
                 and rets[0].value.id in locals_:
             r = rets[0].value.id
             if r in params and isinstance(bound[r], ast.Name) and bound[r].id == target:
@@ -2323,7 +2330,12 @@ class _HelperInliner:
                 direct[p] = arg
             else:
                 binds.append(_fix(ast.Assign(targets=[ast.Name(id=mapping[p], ctx=ast.Store())], value=arg), call))
-        body2 = _ret_to_assign(body, target, call)
+        if target == '__return__':
+            body2 = list(body)
+            if not terminates(body2):
+                body2.append(_fix(ast.Return(value=ast.Constant(value=None)), call))
+        else:
+            body2 = _ret_to_assign(body, target, call)
         if body2 is None:
             return None
         mod = ast.Module(body=body2, type_ignores=[])
